@@ -38,8 +38,11 @@ enum Kind {
     /// a unit variant selected by its tag, without payload (`!Start`): for the enum target the
     /// value `Start`, not a null document
     TaggedUnitVariant,
+    /// a syntax error that the parser reports without stopping (an undeclared tag handle): the
+    /// iterator ends after it like after any other syntax error
+    UndeclaredTagHandle,
 }
-const KINDS: [Kind; 19] = [
+const KINDS: [Kind; 20] = [
     Kind::Mapping,
     Kind::Sequence,
     Kind::Scalar,
@@ -59,6 +62,7 @@ const KINDS: [Kind; 19] = [
     Kind::TaggedStrNull,
     Kind::BarePayloadVariant,
     Kind::TaggedUnitVariant,
+    Kind::UndeclaredTagHandle,
 ];
 
 #[derive(Clone, Debug, Serialize, Deserialize, PartialEq, Eq, Hash)]
@@ -123,10 +127,11 @@ impl Part {
             Kind::TaggedStrNull => ["!!str null\n", "!!str ~\n"][v % 2],
             Kind::BarePayloadVariant => "Wait\n",
             Kind::TaggedUnitVariant => ["!Start\n", "!Stop ~\n"][v % 2],
+            Kind::UndeclaredTagHandle => ["k:\n- !b!x\n", "- !b!x\n", "k: [!b!x]\n"][v % 3],
         }
     }
     fn has_syntax_error(&self) -> bool {
-        matches!(self.kind, Kind::SyntaxError | Kind::UnterminatedFlow | Kind::TypeThenSyntaxError)
+        matches!(self.kind, Kind::SyntaxError | Kind::UnterminatedFlow | Kind::TypeThenSyntaxError | Kind::UndeclaredTagHandle)
     }
     fn nullish(&self) -> bool {
         matches!(self.kind, Kind::Empty | Kind::ExplicitNull | Kind::CommentOnly)
@@ -354,7 +359,7 @@ impl Property for C11 {
     const ID: &'static str = "C11";
     type Case = Case;
     fn rule() -> String {
-        "cases = sequences over 19 document kinds (mapping, sequence, scalar, empty, explicit null, comment-only, defines an anchor, aliases an anchor of an earlier document, type error early, type error late inside nesting, syntax error, unterminated flow, type error followed by a syntax error, another valid mapping, a bare enum variant name - of a unit variant and of a variant with an optional payload -, an empty string, a null-like scalar tagged `!!str`, a tag-selected unit variant without payload), 2-3 concrete texts per kind, with/without `...` end markers and trailing comments, LF/CRLF; all sequences of length <= 3 (thorough: <= 4) and random ones up to length 8; targets: untyped tree, BTreeMap<String,i64>, String and an enum (for which several kinds are type errors, some raised on a peeked event). Oracle: a model built from parsing each part alone with from_str: batch = Err if a part fails else the list of the non-empty parts; iterator = Ok / Err per part, continuing after a type-level error and ending after a part that contains a syntax error, never more than len+2 items, equal to batch when nothing fails; single-document entry points reject a stream whose later part has content. Non-trivial: >= 2 parts one of which is an error or anchor-related kind.".into()
+        "cases = sequences over 20 document kinds (mapping, sequence, scalar, empty, explicit null, comment-only, defines an anchor, aliases an anchor of an earlier document, type error early, type error late inside nesting, syntax error, unterminated flow, type error followed by a syntax error, another valid mapping, a bare enum variant name - of a unit variant and of a variant with an optional payload -, an empty string, a null-like scalar tagged `!!str`, a tag-selected unit variant without payload, an undeclared tag handle - a syntax error after which the parser itself would go on), 2-3 concrete texts per kind, with/without `...` end markers and trailing comments, LF/CRLF; all sequences of length <= 3 (thorough: <= 4) and random ones up to length 8; targets: untyped tree, BTreeMap<String,i64>, String and an enum (for which several kinds are type errors, some raised on a peeked event). Oracle: a model built from parsing each part alone with from_str: batch = Err if a part fails else the list of the non-empty parts; iterator = Ok / Err per part, continuing after a type-level error and ending after a part that contains a syntax error, never more than len+2 items, equal to batch when nothing fails; single-document entry points reject a stream whose later part has content. Non-trivial: >= 2 parts one of which is an error or anchor-related kind.".into()
     }
     fn assumptions() -> Vec<String> {
         vec![
@@ -455,7 +460,7 @@ impl Property for C11 {
                 }
             }
         }
-        ctx.subspace(&format!("all sequences of length <= {maxlen} over 19 document kinds x 4 targets"), total, true);
+        ctx.subspace(&format!("all sequences of length <= {maxlen} over 20 document kinds x 4 targets"), total, true);
 
         let part = (prop::sample::select(KINDS.to_vec()), 0u8..3, any::<bool>(), any::<bool>()).prop_map(|(kind, variant, e, t)| Part { kind, variant, end_marker: e, trailing_comment: t });
         // bias towards valid kinds so that long streams survive
